@@ -143,6 +143,13 @@ pub struct EnvConfig {
     /// the crash becomes visible together with the last byte before it (same read pass, no
     /// would-block in between) instead of as a separate event
     pub crash_with_last_byte: bool,
+    /// the server's hanging up becomes visible together with the last byte it sent (same read
+    /// pass) instead of as a separate event
+    pub eof_with_last_byte: bool,
+    /// how the server's hanging up (the broker's `eof`) shows on the client's side: "eof" (reads
+    /// return 0; the default), "reset" (reads fail with ConnectionReset), "pipe" (writes fail with
+    /// BrokenPipe, reads return 0), "reset+pipe"
+    pub hangup: &'static str,
     /// fail the client's n-th write call (0-based)
     pub fail_write_call: Option<usize>,
     /// allow virtual time to advance at quiescence
@@ -175,6 +182,8 @@ impl Default for EnvConfig {
             write_chunk: None,
             crash_after_inbound: None,
             crash_with_last_byte: false,
+            hangup: "eof",
+            eof_with_last_byte: false,
             fail_write_call: None,
             time: true,
             horizon_ns: 3_600_000_000_000,
@@ -577,6 +586,10 @@ impl St {
                     self.tr.readable.push_back(b);
                 }
                 self.tr.inbound_delivered += k;
+                if self.cfg.eof_with_last_byte && k > 0 && self.tr.pending.is_empty() && self.tr.pending_eof && !self.tr.eof_delivered {
+                    self.apply_env(EnvAction::Eof);
+                    return;
+                }
                 if self.cfg.crash_with_last_byte && k > 0 && !self.tr.crash_done {
                     if let Some((off, kind)) = self.cfg.crash_after_inbound.clone() {
                         if self.tr.inbound_delivered >= off {
@@ -589,7 +602,18 @@ impl St {
             }
             EnvAction::Eof => {
                 self.tr.eof_delivered = true;
-                self.tr.eof_readable = true;
+                match self.cfg.hangup {
+                    "reset" => self.tr.read_err = true,
+                    "pipe" => {
+                        self.tr.eof_readable = true;
+                        self.tr.write_err = true;
+                    }
+                    "reset+pipe" => {
+                        self.tr.read_err = true;
+                        self.tr.write_err = true;
+                    }
+                    _ => self.tr.eof_readable = true,
+                }
                 self.raise();
             }
             EnvAction::Grant(k) => {
